@@ -483,9 +483,17 @@ fn check_faulted(
     // may introduce new jsr requirements that change unification
     skip_independence = true;
   }
-  if is_registry
-    && serde_json::to_string(&base.graph.packages).unwrap_or_default() != serde_json::to_string(&g.packages).unwrap_or_default()
-  {
+  let jsr_state = |gr: &ModuleGraph| -> String {
+    let mut reds: Vec<String> = gr
+      .redirects
+      .iter()
+      .filter(|(a, _)| a.scheme() == "jsr")
+      .map(|(a, b)| format!("{} -> {}", a, b))
+      .collect();
+    reds.sort();
+    format!("{} {:?}", serde_json::to_string(&gr.packages).unwrap_or_default(), reds)
+  };
+  if is_registry && jsr_state(&base.graph) != jsr_state(g) {
     // which version a requirement resolves to depends on the versions
     // already in the graph (resolve_version prefers them), so a fault that
     // removes or adds a package version legitimately changes other
